@@ -109,6 +109,21 @@ def same_treatment(ctx):
                 outs.append(r)
             if all(o.ok for o in outs):
                 ctx.expect(outs[0].b(1)[:L.Noe] == outs[1].b(1)[:L.Noe], "same evaluation with and without a record")
+    # a setup restored from storage whose stand-in key pair coincides with the server's own static key (seed || sk || sk is
+    # a valid encoding): without a record the stand-in client key then IS the server key and, with default identities,
+    # both identities are the same bytes - the unregistered user must still be answered exactly like the registered one
+    twin = f.setup[:L.Nh + L.Nsk] + f.setup[L.Nh:L.Nh + L.Nsk]
+    ctx.expect(ctx.call("dec", "ServerSetup", twin).ok, "a setup whose stand-in key equals its static key restores")
+    for cred in (b"c" * 70000, b"short"):
+        outs = []
+        for file in (f.file, None):
+            r = ctx.call("srv_login_start", ctx.tape(L.Nh + 64 + L.Nsk + 16), twin, file, f.ke1, cred, None, None, None)
+            ctx.expect(r.ok and len(r.b(1)) == L.cred_response,
+                       "login start under a setup whose stand-in key equals its static key answers, %d-byte identifier, %s (%s)"
+                       % (len(cred), "record" if file else "no record", r.err))
+            outs.append(r)
+        if all(o.ok for o in outs):
+            ctx.expect(outs[0].b(1)[:L.Noe] == outs[1].b(1)[:L.Noe], "same evaluation with and without a record (twin setup)")
 
 
 def cases(tier, seed):
